@@ -487,6 +487,415 @@ def _pure_place_idx(n, depth=0):
     return False
 
 
+_NUM = ("f32", "f64", "usize", "u8", "u16", "u32", "u64", "i8", "i16", "i32", "i64", "isize", "bool")
+
+
+def _unblk(n):
+    while n is not None and n.get("k") == "blk" and not n["b"]["stmts"] and n["b"]["tail"] is not None and n.get("lbl") is None:
+        n = n["b"]["tail"]
+    return n
+
+
+def _root_of_place(n):
+    n = _unblk(n)
+    while n is not None and n.get("k") in ("field", "index", "ref", "un", "mcall", "blk"):
+        k = n["k"]
+        if k in ("field", "index"):
+            n = n["b"]
+        elif k in ("ref", "un"):
+            n = n["x"]
+        elif k == "mcall":
+            if n["name"] in ("iter", "clone", "to_vec", "cloned", "copied", "len"):
+                return None
+            n = n["recv"]
+        else:
+            n = _unblk(n)
+            if n is not None and n.get("k") == "blk":
+                return None
+        n = _unblk(n) if n is not None and n.get("k") == "blk" else n
+    return n if n is not None and n.get("k") == "local" else None
+
+
+def _mutations(body, types):
+    """{hid: kinds} of the locals assigned / mutably borrowed under body; kind 'elem' = assignment to a numeric element through an index"""
+    out = {}
+
+    def ty(x, key="t"):
+        i = x.get(key)
+        return types[i] if isinstance(i, int) and i < len(types) else ""
+    for x in _walk(body):
+        k = x.get("k")
+        if k in ("assign", "assignop"):
+            l = _unblk(x["l"])
+            r = _root_of_place(l)
+            if r is not None:
+                kind = "elem" if l.get("k") == "index" and ty(l) in _NUM else "whole"
+                out.setdefault(r["hid"], set()).add(kind)
+        elif k == "mcall":
+            rv = x["recv"]
+            if ty(rv, "ta").startswith("&mut") or (ty(rv, "ta") == "" and ty(rv).startswith("&mut")):
+                r = _root_of_place(rv)
+                if r is not None:
+                    out.setdefault(r["hid"], set()).add("whole")
+        elif k == "ref" and x.get("mut"):
+            r = _root_of_place(x["x"])
+            if r is not None:
+                out.setdefault(r["hid"], set()).add("whole")
+    return out
+
+
+def _pure_bound(n, depth=0):
+    """loop bound that is cheap and side-effect free: places, literals, `.len()`, arithmetic, casts"""
+    n = _unblk(n)
+    if n is None or depth > 8:
+        return False
+    k = n.get("k")
+    if k in ("local", "lit", "path"):
+        return True
+    if k in ("field",):
+        return _pure_bound(n["b"], depth + 1)
+    if k == "index":
+        return _pure_bound(n["b"], depth + 1) and _pure_bound(n["i"], depth + 1)
+    if k in ("ref", "un", "cast"):
+        return _pure_bound(n["x"], depth + 1)
+    if k == "bin":
+        return _pure_bound(n["l"], depth + 1) and _pure_bound(n["r"], depth + 1)
+    if k == "mcall" and n["name"] == "len" and not n["args"]:
+        return _pure_bound(n["recv"], depth + 1)
+    return False
+
+
+def _len_only(n, hid, under_len=False):
+    """every occurrence of local `hid` in n sits below the receiver of a `.len()` call"""
+    if isinstance(n, list):
+        return all(_len_only(v, hid, under_len) for v in n)
+    if not isinstance(n, dict):
+        return True
+    if n.get("k") == "local" and n.get("hid") == hid:
+        return under_len
+    if n.get("k") == "mcall" and n.get("name") == "len":
+        return _len_only(n["recv"], hid, True)
+    return all(_len_only(v, hid, under_len) for key, v in n.items() if isinstance(v, (dict, list)))
+
+
+def _mentions(n, hid):
+    return any(x.get("k") in ("local", "bind") and x.get("hid") == hid for x in _walk(n))
+
+
+def _countdown(blkn, stmts, items, b, lp, iff, iv, types):
+    ih = iv["hid"]
+    th = iff["th"]
+    thb = th["b"] if th.get("k") == "blk" else None
+    if thb is None:
+        return False
+    body_items = list(thb["stmts"]) + ([thb["tail"]] if thb.get("tail") is not None else [])
+    if len(body_items) < 1:
+        return False
+    first = _unblk(body_items[0])
+    dec = False
+    if first is not None and first.get("k") == "assignop" and first["op"].startswith("Sub"):
+        l_, r_ = _unblk(first["l"]), _unblk(first["r"])
+        dec = l_.get("k") == "local" and l_["hid"] == ih and r_.get("k") == "lit" and str(r_.get("v")).replace("usize", "").rstrip("_") == "1"
+    elif first is not None and first.get("k") == "assign":
+        l_, r_ = _unblk(first["l"]), _unblk(first["r"])
+        if l_.get("k") == "local" and l_["hid"] == ih and r_.get("k") == "bin" and r_["op"] == "Sub":
+            a_, b_ = _unblk(r_["l"]), _unblk(r_["r"])
+            dec = a_.get("k") == "local" and a_["hid"] == ih and b_.get("k") == "lit" and str(b_.get("v")).replace("usize", "").rstrip("_") == "1"
+    if not dec:
+        return False
+    rest = body_items[1:]
+    if ih in _mutations(rest, types):
+        return False
+    lid = lp.get("loop_id")
+    if any(x.get("k") == "continue" and x.get("label") in (lid, None) for x in _walk(rest)):
+        pass        # `continue` re-tests `i > 0` and decrements first: same as the next iteration of the for loop
+    a = None
+    for j in range(b - 1, -1, -1):
+        s = items[j]
+        if s.get("k") == "let" and s["pat"].get("k") == "bind" and s["pat"]["hid"] == ih and s.get("init") is not None and not s.get("els"):
+            a = j
+            break
+        if _mentions(s, ih):
+            return False
+    if a is None:
+        return False
+    start = _unblk(items[a]["init"])
+    if not _pure_bound(start):
+        return False
+    muts_between = _mutations(items[a + 1:b], types)
+    muts_body = {}
+    if any(x.get("k") == "local" and (x["hid"] in muts_between) for x in _walk(start)):
+        return False
+    if any(_mentions(s, ih) for s in items[b + 1:]):
+        return False
+    usize_t = types.index("usize") if "usize" in types else None
+    pat = dict(items[a]["pat"])
+    pat["mode"] = "BindingMode(No, Not)"
+    line = lp.get("line")
+    rng = {"k": "struct", "path": "std::ops::Range", "mac": "Desugaring(RangeExpr)", "line": line, "fs": [["start", {"k": "lit", "v": "0", "t": usize_t}], ["end", start]]}
+    newlp = {"k": "for", "pat": pat, "loop_id": lid, "line": line, "from_while": "countdown",
+             "body": {"k": "blk", "b": {"k": "block", "stmts": rest, "tail": None}, "line": th.get("line")},
+             "iter": {"k": "mcall", "name": "rev", "callee": "std::iter::Iterator::rev", "recv": rng, "args": [], "line": line}}
+    if "id" in lp:
+        newlp["id"] = lp["id"]
+    if b < len(stmts):
+        stmts[b] = newlp
+    else:
+        blkn["tail"] = None
+        stmts.append(newlp)
+    del stmts[a]
+    return True
+
+
+def while_to_for(fn, types):
+    """D8  `let mut i = A; while i < B { body; i += 1; }`  ->  `for i in A..B { body }`
+    when the body neither assigns i elsewhere nor `continue`s the loop, B is side-effect free and not changed by the body
+    (element writes do not change a `.len()`), and i is not used after the loop.  Same iterations, same order, same panics."""
+    n = 0
+    usize_t = types.index("usize") if "usize" in types else None
+    for blkn in list(_walk(fn.get("body"))):
+        if blkn.get("k") != "block":
+            continue
+        changed = True
+        while changed:
+            changed = False
+            stmts = blkn["stmts"]
+            items = list(stmts) + ([blkn["tail"]] if blkn.get("tail") is not None else [])
+            for b, lp0 in enumerate(items):
+                lp = _unblk(lp0)
+                if lp is None or lp.get("k") != "loop" or lp.get("src") != "While":
+                    continue
+                bd = lp["body"]
+                bd = bd["b"] if bd.get("k") == "blk" else bd
+                if bd.get("k") != "block" or bd["stmts"] or bd.get("tail") is None or bd["tail"].get("k") != "if":
+                    continue
+                iff = bd["tail"]
+                c = _unblk(iff["c"])
+                if c is None or c.get("k") != "bin":
+                    continue
+                if c["op"] == "Lt":
+                    iv, end = _unblk(c["l"]), c["r"]
+                elif c["op"] == "Gt":
+                    iv, end = _unblk(c["r"]), c["l"]
+                else:
+                    continue
+                zero = _unblk(c["r"]) if c["op"] == "Gt" else _unblk(c["l"])
+                down = _unblk(c["l"]) if c["op"] == "Gt" else _unblk(c["r"])
+                if (zero is not None and zero.get("k") == "lit" and str(zero.get("v")).replace("usize", "").rstrip("_") == "0"
+                        and down is not None and down.get("k") == "local"):
+                    # count-down:  `let mut i = N; while i > 0 { i -= 1; body }`  ->  `for i in (0..N).rev() { body }`
+                    if _countdown(blkn, stmts, items, b, lp, iff, down, types):
+                        n += 1
+                        changed = True
+                        break
+                    continue
+                if iv is None or iv.get("k") != "local":
+                    continue
+                ih = iv["hid"]
+                th = iff["th"]
+                thb = th["b"] if th.get("k") == "blk" else None
+                if thb is None or thb.get("tail") is not None and False:
+                    continue
+                body_items = list(thb["stmts"]) + ([thb["tail"]] if thb.get("tail") is not None else [])
+                if not body_items:
+                    continue
+                last = _unblk(body_items[-1])
+                inc = False
+                if last is not None and last.get("k") == "assignop" and last["op"].startswith("Add"):
+                    l_, r_ = _unblk(last["l"]), _unblk(last["r"])
+                    inc = l_.get("k") == "local" and l_["hid"] == ih and r_.get("k") == "lit" and str(r_.get("v")).split("_")[0].replace("usize", "") == "1"
+                elif last is not None and last.get("k") == "assign":
+                    l_, r_ = _unblk(last["l"]), _unblk(last["r"])
+                    if l_.get("k") == "local" and l_["hid"] == ih and r_.get("k") == "bin" and r_["op"] == "Add":
+                        a_, b_ = _unblk(r_["l"]), _unblk(r_["r"])
+                        for u, v in ((a_, b_), (b_, a_)):
+                            if u.get("k") == "local" and u["hid"] == ih and v.get("k") == "lit" and str(v.get("v")).replace("usize", "").rstrip("_") == "1":
+                                inc = True
+                if not inc:
+                    continue
+                rest = body_items[:-1]
+                if ih in _mutations(rest, types):
+                    continue
+                lid = lp.get("loop_id")
+                if any(x.get("k") == "continue" and x.get("label") in (lid, None) for x in _walk(rest)):
+                    continue
+                if not _pure_bound(end):
+                    continue
+                muts = _mutations(rest, types)
+                bad = False
+                for x in _walk(end):
+                    if x.get("k") == "local" and x["hid"] in muts:
+                        if muts[x["hid"]] - {"elem"} or not _len_only(end, x["hid"]):
+                            bad = True
+                if bad or _mentions(end, ih):
+                    continue
+                # the counter's declaration: an earlier statement of this block, not mentioned in between or after the loop
+                a = None
+                for j in range(b - 1, -1, -1):
+                    s = items[j]
+                    if s.get("k") == "let" and s["pat"].get("k") == "bind" and s["pat"]["hid"] == ih and s.get("init") is not None and not s.get("els"):
+                        a = j
+                        break
+                    if _mentions(s, ih):
+                        break
+                if a is None:
+                    continue
+                start = _unblk(items[a]["init"])
+                if not (start.get("k") == "lit" or (a == b - 1 and _pure_place(start))):
+                    continue
+                if any(_mentions(s, ih) for s in items[b + 1:]):
+                    continue
+                pat = dict(items[a]["pat"])
+                pat["mode"] = "BindingMode(No, Not)"
+                body = {"k": "blk", "b": {"k": "block", "stmts": rest, "tail": None}, "line": th.get("line")}
+                newlp = {"k": "for", "pat": pat, "loop_id": lid, "line": lp.get("line"), "from_while": True, "body": body,
+                         "iter": {"k": "struct", "path": "std::ops::Range", "mac": "Desugaring(RangeExpr)", "line": lp.get("line"),
+                                  "fs": [["start", start], ["end", end]]}}
+                if "id" in lp:
+                    newlp["id"] = lp["id"]
+                if b < len(stmts):
+                    stmts[b] = newlp
+                else:
+                    blkn["tail"] = None
+                    stmts.append(newlp)
+                del stmts[a]
+                n += 1
+                changed = True
+                break
+    return n
+
+
+def option_combinators(fn):
+    """D9  `opt.map(|p| e)`        ->  `match opt { Some(p) => Some(e), None => None }`
+           `opt.and_then(|p| e)`   ->  `match opt { Some(p) => e, None => None }`
+           `opt.map_or(d, |p| e)`  ->  `match opt { Some(p) => e, None => d }`      (d a literal / path / local: evaluation order irrelevant)
+    (the definitions of the combinators; a closure containing `return` is left alone)."""
+    n = 0
+
+    def rewrite(x):
+        nonlocal n
+        if isinstance(x, list):
+            return [rewrite(v) for v in x]
+        if not isinstance(x, dict):
+            return x
+        for k_, v in list(x.items()):
+            if isinstance(v, (dict, list)):
+                x[k_] = rewrite(v)
+        if x.get("k") != "mcall" or not str(x.get("callee", "")).startswith(("std::option::Option::<T>::", "core::option::Option::<T>::")):
+            return x
+        name = x["name"]
+        args = x["args"]
+        if name in ("map", "and_then") and len(args) == 1:
+            cl, dflt = _unblk(args[0]), None
+        elif name == "map_or" and len(args) == 2:
+            cl, dflt = _unblk(args[1]), _unblk(args[0])
+            if dflt is None or dflt.get("k") not in ("lit", "path", "local"):
+                return x
+        else:
+            return x
+        if cl is None or cl.get("k") != "closure" or len(cl.get("params") or []) != 1 or any(y.get("k") == "ret" for y in _walk(cl["body"])):
+            return x
+        line = x.get("line")
+        body = cl["body"]
+        if name == "map":
+            body = {"k": "call", "callee": "std::prelude::v1::Some", "f": {"k": "path", "def": "std::prelude::v1::Some", "line": line}, "args": [body], "line": line}
+            if "t" in x:
+                body["t"] = x["t"]
+        none = dflt if dflt is not None else {"k": "path", "def": "std::prelude::v1::None", "line": line}
+        if dflt is None and "t" in x:
+            none["t"] = x["t"]
+        m = {"k": "match", "scrut": x["recv"], "src": "Normal", "line": line, "from_option_combinator": name,
+             "arms": [{"pat": {"k": "tstruct", "path": "std::prelude::v1::Some", "ps": [cl["params"][0]]}, "guard": None, "body": body},
+                      {"pat": {"k": "ppath", "path": "std::prelude::v1::None"}, "guard": None, "body": none}]}
+        for key in ("t", "ta", "id"):
+            if key in x:
+                m[key] = x[key]
+        n += 1
+        return m
+    if fn.get("body") is not None:
+        fn["body"] = rewrite(fn["body"])
+    return n
+
+
+def flatten_blocks(fn):
+    """D10  a block used as a statement, or as the initialiser of a `let`, is spliced into the enclosing block:
+        `{ s1; s2; t }`  as a statement       ->  `s1; s2; t;`
+        `let P = { s1; s2; t };`               ->  `s1; s2; let P = t;`
+    Locals are identified by the compiler's ids, not by name, so widening a scope cannot capture anything; only drop order
+    changes, which no property observes.  Labelled blocks (an inlined helper with an early `return`) are kept."""
+    n = 0
+    for b in list(_walk(fn.get("body"))):
+        if b.get("k") != "block":
+            continue
+        changed = True
+        while changed:
+            changed = False
+            out = []
+            for s in b["stmts"]:
+                if s.get("k") == "blk" and s.get("lbl") is None and isinstance(s.get("b"), dict) and s["b"].get("k") == "block" and not s.get("unsafe") and (s["b"]["stmts"] or s["b"].get("tail") is not None):
+                    out.extend(s["b"]["stmts"])
+                    if s["b"].get("tail") is not None:
+                        out.append(s["b"]["tail"])
+                    changed = True
+                    n += 1
+                elif (s.get("k") == "let" and not s.get("els") and isinstance(s.get("init"), dict) and s["init"].get("k") == "blk" and s["init"].get("lbl") is None
+                      and not s["init"].get("unsafe") and s["init"]["b"].get("k") == "block" and s["init"]["b"]["stmts"] and s["init"]["b"].get("tail") is not None):
+                    out.extend(s["init"]["b"]["stmts"])
+                    s["init"] = s["init"]["b"]["tail"]
+                    out.append(s)
+                    changed = True
+                    n += 1
+                else:
+                    out.append(s)
+            b["stmts"] = out
+            t = b.get("tail")
+            if (isinstance(t, dict) and t.get("k") == "blk" and t.get("lbl") is None and not t.get("unsafe") and t["b"].get("k") == "block" and t["b"]["stmts"]):
+                b["stmts"] = b["stmts"] + list(t["b"]["stmts"])
+                b["tail"] = t["b"].get("tail")
+                changed = True
+                n += 1
+    return n
+
+
+def move_aliases(fn):
+    """D11  `let a = b;` where b is a local that is never mentioned again (a move / rename) -> a is b.
+    Only within one statement list; the binding of b must be a plain `let` / parameter (hid-identified)."""
+    n = 0
+    for b in list(_walk(fn.get("body"))):
+        if b.get("k") != "block":
+            continue
+        i = 0
+        while i < len(b["stmts"]):
+            s = b["stmts"][i]
+            init = _unblk(s.get("init")) if s.get("k") == "let" else None
+            if (s.get("k") == "let" and not s.get("els") and s["pat"].get("k") == "bind" and not s["pat"].get("sub") and init is not None and init.get("k") == "local"
+                    and "Ref" not in str(s["pat"].get("mode")) and s.get("from_alias") is None):
+                src = init["hid"]
+                later = b["stmts"][i + 1:] + ([b["tail"]] if b.get("tail") is not None else [])
+                if not any(_mentions(x, src) for x in later) and src != s["pat"]["hid"] and _declared_in(b["stmts"][:i], src):
+                    dst = s["pat"]["hid"]
+                    for x in later:
+                        for y in _walk(x):
+                            if y.get("k") == "local" and y.get("hid") == dst:
+                                y["hid"] = src
+                                y["name"] = init["name"]
+                    del b["stmts"][i]
+                    n += 1
+                    continue
+            i += 1
+    return n
+
+
+def _declared_in(stmts, hid):
+    """hid is bound by a plain `let` among stmts (same statement list: same lifetime, nothing captured in between matters)"""
+    for s in stmts:
+        if s.get("k") == "let":
+            for q in _walk(s["pat"]):
+                if q.get("k") == "bind" and q.get("hid") == hid:
+                    return True
+    return False
+
+
 _CTR = [0]
 
 
@@ -497,8 +906,12 @@ def run(facts):
         if fn.get("body") is None:
             continue
         counts["debug_asserts"] += strip_debug_asserts(fn["body"])
+        counts["while_loops"] = counts.get("while_loops", 0) + while_to_for(fn, facts["types"])
+        counts["option_combinators"] = counts.get("option_combinators", 0) + option_combinators(fn)
         counts["let_else"] += let_else_to_match(fn["body"])
+        counts["flattened_blocks"] = counts.get("flattened_blocks", 0) + flatten_blocks(fn)
         counts["split_tuple_lets"] = counts.get("split_tuple_lets", 0) + split_tuple_lets(fn["body"])
+        counts["move_aliases"] = counts.get("move_aliases", 0) + move_aliases(fn)
         counts["destructured"] += destructure_subst(fn, facts["types"])
         counts["local_closures"] += inline_local_closures(fn, ctr)
         counts["tuple_values"] = counts.get("tuple_values", 0) + split_tuple_values(fn)
